@@ -517,46 +517,68 @@ theorem parseIP_v4 {s : Str} {o4 : List Nat} (h : parseIP s = some (.v4 o4)) : p
     | none => rw [h6] at h; cases h
     | some x => rw [h6] at h; cases h
 
-/-- the four things the non-validating `_encode_host` can return: a bracketed canonical IPv6 text
-    (zone kept), the input itself (IPv4 literal, zone kept), the lower-cased ASCII input, or the
-    IDNA encoder's answer -/
+/-- the IP branch without validation: a bracketed canonical IPv6 text (zone kept) or the input itself (IPv4) -/
+theorem ipRes_false_cases {h0 h1 : Str} (hres : HostLemmas.ipRes h0 = some h1) :
+    (∃ h8, parseIP (partition 37 h0).1 = some (.v6 h8) ∧ h1 = [91] ++ (ipv6ToStr h8 ++ zonePart h0) ++ [93]) ∨
+    h1 = h0 := by
+  unfold HostLemmas.ipRes at hres
+  cases hp : parseIP (partition 37 h0).1 with
+  | none => simp [hp] at hres
+  | some ip =>
+    cases ip with
+    | v4 o4 =>
+      right
+      simp only [hp, Option.some.injEq] at hres
+      rw [(C16_ipv4_canonical _ o4 (parseIP_v4 hp)).1] at hres
+      have hj := partition_join 37 h0
+      rw [← hres]
+      cases hf : (partition 37 h0).2.1 with
+      | true => rw [hf] at hj; simpa using hj.symm
+      | false => rw [hf] at hj; simpa using hj.symm
+    | v6 h8 =>
+      left
+      simp only [hp, Option.some.injEq] at hres
+      refine ⟨h8, rfl, ?_⟩
+      rw [← hres]
+      unfold zonePart
+      split <;> simp
+
+/-- the three things the re-entry `encodeHostA` (fix 3fbf5b4) can return without validation -/
+theorem encodeHostA_false_cases (o : Oracles) (a h1 : Str) (he : encodeHostA o a false = .ok h1) :
+    (∃ h8, parseIP (partition 37 a).1 = some (.v6 h8) ∧ h1 = [91] ++ (ipv6ToStr h8 ++ zonePart a) ++ [93]) ∨
+    h1 = a ∨ (isAscii a = true ∧ h1 = lower a) := by
+  rcases HostLemmas.encodeHostA_casesV he with ⟨hres, _⟩ | ⟨_, hreg⟩
+  · rcases ipRes_false_cases hres with h | h
+    · exact Or.inl h
+    · exact Or.inr (Or.inl h)
+  · obtain ⟨ha, hr, _⟩ := HostLemmas.regPathA_ok hreg
+    exact Or.inr (Or.inr ⟨ha, hr⟩)
+
+/-- the things the non-validating `_encode_host` can return: a bracketed canonical IPv6 text
+    (zone kept); since fix 3fbf5b4, for a non-ASCII host whose IDNA answer `a` holds a ':', what the re-entry makes
+    of `a` (the same three ASCII cases, on `a`); the input itself (IPv4 literal, zone kept), the lower-cased ASCII
+    input, or the IDNA encoder's answer -/
 theorem encodeHost_false_cases (o : Oracles) (h0 h1 : Str) (he : encodeHost o h0 false = .ok h1) :
     (∃ h8, parseIP (partition 37 h0).1 = some (.v6 h8) ∧ h1 = [91] ++ (ipv6ToStr h8 ++ zonePart h0) ++ [93]) ∨
+    (isAscii h0 = false ∧ ∃ a, idnaEncode o h0 = .ok a ∧ mem 58 a = true ∧
+      ((∃ h8, parseIP (partition 37 a).1 = some (.v6 h8) ∧ h1 = [91] ++ (ipv6ToStr h8 ++ zonePart a) ++ [93]) ∨
+        h1 = a ∨ (isAscii a = true ∧ h1 = lower a))) ∨
     h1 = h0 ∨ (isAscii h0 = true ∧ h1 = lower h0) ∨ (isAscii h0 = false ∧ idnaEncode o h0 = .ok h1) := by
   rcases HostLemmas.encodeHost_casesV he with ⟨hres, _⟩ | ⟨_, hreg⟩
-  · unfold HostLemmas.ipRes at hres
-    cases hp : parseIP (partition 37 h0).1 with
-    | none => simp [hp] at hres
-    | some ip =>
-      cases ip with
-      | v4 o4 =>
-        right; left
-        simp only [hp, Option.some.injEq] at hres
-        rw [(C16_ipv4_canonical _ o4 (parseIP_v4 hp)).1] at hres
-        have hj := partition_join 37 h0
-        rw [← hres]
-        cases hf : (partition 37 h0).2.1 with
-        | true => rw [hf] at hj; simpa using hj.symm
-        | false => rw [hf] at hj; simpa using hj.symm
-      | v6 h8 =>
-        left
-        simp only [hp, Option.some.injEq] at hres
-        refine ⟨h8, rfl, ?_⟩
-        rw [← hres]
-        unfold zonePart
-        split <;> simp
-  · right; right
-    unfold HostLemmas.regPath at hreg
-    split at hreg
-    · rename_i ha
-      simp only [Bool.false_and, Bool.false_eq_true, if_false] at hreg
+  · rcases ipRes_false_cases hres with h | h
+    · exact Or.inl h
+    · exact Or.inr (Or.inr (Or.inl h))
+  · right
+    cases ha : isAscii h0 with
+    | true =>
+      right; right; left
+      simp only [HostLemmas.regPath, ha, ↓reduceIte, Bool.false_and, Bool.false_eq_true] at hreg
       cases hreg
-      exact Or.inl ⟨ha, rfl⟩
-    · rename_i ha
-      obtain ⟨r, hr, hreg⟩ := bind_ok hreg
-      simp only [Bool.false_and, Bool.false_eq_true, if_false] at hreg
-      cases hreg
-      exact Or.inr ⟨by simpa using ha, hr⟩
+      exact ⟨rfl, rfl⟩
+    | false =>
+      obtain ⟨a, hi, ⟨_, rfl, _⟩ | ⟨h58, hA⟩⟩ := HostLemmas.regPath_idn_cases ha hreg
+      · exact Or.inr (Or.inr (Or.inr ⟨rfl, hi⟩))
+      · exact Or.inl ⟨rfl, a, hi, h58, encodeHostA_false_cases o a h1 hA⟩
 
 /-- the delimiters that matter when a netloc is split and its host unbracketed -/
 def Delim (c : Nat) : Prop := c = 58 ∨ c = 64 ∨ c = 91 ∨ c = 93
@@ -603,6 +625,15 @@ theorem encodeHost_false_delims (o : Oracles) (h0 h1 : Str)
   intro c hc
   exact encodeHost_false_char o h0 h1 c (by unfold Delim at hc; omega) (fun ha r hr => hidna ha r hr c hc) h
 
+/-- the two non-IPv6 answers of the re-entry introduce no non-letter character -/
+theorem encodeHostA_false_char (a h1 : Str) (c : Nat) (hc : ¬ (65 ≤ c ∧ c ≤ 90) ∧ ¬ (97 ≤ c ∧ c ≤ 122))
+    (h : h1 = a ∨ (isAscii a = true ∧ h1 = lower a)) : c ∈ h1 → c ∈ a := by
+  intro hm
+  rcases h with h | ⟨_, h⟩
+  · rwa [h] at hm
+  · rw [h] at hm
+    exact (mem_lower' c hc a).1 hm
+
 /-- THE CRUX after the fix: the re-bracketed encoded host of a host that `split_netloc` cut out of
     the input is always a writable host text -/
 theorem writable_rebracket (o : Oracles) (n : Str) (np : NetlocParts) (h0 h1 : Str)
@@ -612,18 +643,26 @@ theorem writable_rebracket (o : Oracles) (n : Str) (np : NetlocParts) (h0 h1 : S
     (he : encodeHost o h0 false = .ok h1) :
     Writable (rebracket (mem 91 (rpartition 64 n).2.2) h1) := by
   obtain ⟨_, h64, hB, hnB⟩ := splitNetloc_host_facts o n np h0 hn hh
-  rcases encodeHost_false_cases o h0 h1 he with ⟨h8, hv6, hr⟩ | hrest
-  · obtain ⟨hc, hc0, hsub⟩ := v6_body_facts h0 h8 hv6
+  -- a bracketed canonical IPv6 text made from `t` (the host, or since fix 3fbf5b4 its IDNA answer)
+  have keyv6 : ∀ (t : Str) (h8 : List Nat), (∀ c, (c = 58 ∨ c = 64 ∨ c = 93) → c ∈ t → c ∈ h0) →
+      parseIP (partition 37 t).1 = some (.v6 h8) → h1 = [91] ++ (ipv6ToStr h8 ++ zonePart t) ++ [93] →
+      Writable (rebracket (mem 91 (rpartition 64 n).2.2) h1) := by
+    intro t h8 ht hv6 hr
+    obtain ⟨hc, hc0, hsub⟩ := v6_body_facts t h8 hv6
+    have hc0' : 58 ∈ h0 := ht 58 (by simp) hc0
     have hBt : mem 91 (rpartition 64 n).2.2 = true := by
       cases hb : mem 91 (rpartition 64 n).2.2 with
       | true => rfl
-      | false => exact absurd hc0 (hnB hb).1
+      | false => exact absurd hc0' (hnB hb).1
     have hm : mem 91 h1 = true := mem_iff.mpr (by rw [hr]; simp)
     have : rebracket (mem 91 (rpartition 64 n).2.2) h1 = h1 := by simp [rebracket, hm]
     rw [this, hr]
-    exact writable_bracketed (fun hm => h64 (hsub 64 (by simp) hm)) (fun hm => hB hBt (hsub 93 (by simp) hm))
-  · have hd : ∀ c, (c = 58 ∨ c = 64 ∨ c = 93) → c ∈ h1 → c ∈ h0 := fun c hc =>
-      encodeHost_false_char o h0 h1 c (by omega) (fun ha r hr => hidna ha r hr c hc) hrest
+    exact writable_bracketed (fun hm => h64 (ht 64 (by simp) (hsub 64 (by simp) hm)))
+      (fun hm => hB hBt (ht 93 (by simp) (hsub 93 (by simp) hm)))
+  -- every other answer brings no new delimiter
+  have main : (∀ c, (c = 58 ∨ c = 64 ∨ c = 93) → c ∈ h1 → c ∈ h0) →
+      Writable (rebracket (mem 91 (rpartition 64 n).2.2) h1) := by
+    intro hd
     have h64' : 64 ∉ h1 := fun hm => h64 (hd 64 (by simp) hm)
     cases hb : mem 91 (rpartition 64 n).2.2 with
     | true =>
@@ -642,6 +681,13 @@ theorem writable_rebracket (o : Oracles) (n : Str) (np : NetlocParts) (h0 h1 : S
       have : rebracket false h1 = bracket h1 := by simp [rebracket, bracket, mem_false_iff.mpr h58']
       rw [this]
       exact writable_bracket ⟨h64', fun hm => absurd hm h58'⟩
+  rcases encodeHost_false_cases o h0 h1 he with ⟨h8, hv6, hr⟩ | ⟨hna, a, hi, _, hA⟩ | hrest
+  · exact keyv6 h0 h8 (fun _ _ hm => hm) hv6 hr
+  · rcases hA with ⟨h8, hv6, hr⟩ | hA
+    · exact keyv6 a h8 (hidna hna a hi) hv6 hr
+    · exact main (fun c hc hm => hidna hna a hi c hc (encodeHostA_false_char a h1 c (by omega) hA hm))
+  · exact main (fun c hc =>
+      encodeHost_false_char o h0 h1 c (by omega) (fun ha r hr => hidna ha r hr c hc) hrest)
 
 /-- the re-bracketed form of "no host" -/
 theorem writable_rebracket_nil (b : Bool) : Writable (rebracket b []) := by
